@@ -50,13 +50,17 @@ def search(prop, violations, work):
             fam = fam_inject_log
         if prop == 'C12' and re.search(r'^c13\.(write|read|buffer)', v['unit']):
             fam = fam_serial_then_stream
+        if prop in ('C08', 'C09') and re.search(r'^(plans|c10|c17)\.', v['unit']):
+            fam = fam_planstep
         if fam is None:
             continue
         v = dict(v, prop=prop)
         driver, cfgs = fam(v)
         for i, defs in enumerate(cfgs):
             rc, info = build_and_run(driver, defs, v.get('copy', 'include'), work, '%s_%d' % (re.sub(r'\W', '_', v['unit']), i))
-            if rc not in (None, 0):
+            # a driver reports a divergence by exit code 1..125 (and a JSON line); death by signal is not a reproduction
+            # (it would not distinguish the library from the driver)
+            if rc is not None and 0 < rc < 126:
                 sc = {'driver': 'replay/' + driver, 'defines': defs, 'copy': v.get('copy', 'include'), 'unit': v['unit'], 'obligation': v['obligation']}
                 sc.update(info)
                 try:
@@ -74,7 +78,7 @@ def rerun(doc):
     try:
         rc, info = build_and_run(os.path.basename(sc['driver']), sc['defines'], sc.get('copy', 'include'), work, 'rerun')
         print(info.get('output') or info)
-        if rc not in (None, 0):
+        if rc is not None and 0 < rc < 126:
             print('replay reproduces the violation on the real code')
             return 1
         print('replay does not reproduce on the current tree')
@@ -124,6 +128,16 @@ def fam_plan(v):
     return 'plan_model.cpp', [['CAP=%d' % c] for c in _caps(v, ['TaskListT__NCapacity'], [4, 1, 2, 7])]
 
 
+def fam_planstep(v):
+    void = v['unit'].endswith('.void')
+    cfgs = []
+    for c in _caps(v, ['TaskListT__NCapacity'], [4, 2, 1]):
+        cfgs.append(['CAP=%d' % c] + (['VOIDP'] if void else []))
+    # the other payload mode last: shared template text breaks both
+    cfgs.append(['CAP=4'] + ([] if void else ['VOIDP']))
+    return 'plan_step_model.cpp', cfgs
+
+
 def fam_serial(v):
     return 'serial_model.cpp', [[]]
 
@@ -136,7 +150,7 @@ def fam_inject_log(v):
     return 'inject_log_model.cpp', [[], ['PEER', 'VERBOSE'], ['VERBOSE']]
 
 
-FAMILIES = [(r'^c17\.', fam_memory), (r'^serial\.', fam_serial), (r'^structure\.(S_inj|S_empty)\.', fam_inject_log), (r'^(c10|plans)\.', fam_plan), (r'^(root|structure|control)\.', fam_machine), (r'^c20\.bitarray\.', fam_bitarray), (r'^c13\.', fam_bitstream), (r'^c20\.(dynamic|static)\.', fam_dynarray)]
+FAMILIES = [(r'^c17\.', fam_memory), (r'^serial\.', fam_serial), (r'^structure\.(S_inj|S_empty)\.', fam_inject_log), (r'^plans\.', fam_planstep), (r'^c10\.', fam_plan), (r'^(root|structure|control)\.', fam_machine), (r'^c20\.bitarray\.', fam_bitarray), (r'^c13\.', fam_bitstream), (r'^c20\.(dynamic|static)\.', fam_dynarray)]
 
 
 def family(unit):
